@@ -31,6 +31,7 @@ def do_case(ctx, inp):
              tags=({"list-repeats-an-id"} if len(set(map(repr, lst))) < len(lst) else set()) | {"dflt-" + (dfl if isinstance(dfl, str) else "callable-const")} | ({"unknown-id"} if unknown else set())
                   | ({"hash-colliding-twin-of-previous-array"} if inp.get("twin") else set())
                   | ({"explicit-zero-for-known-id"} if any(v == 0 and k in ids for k, v in d.items()) else set()))
+    d0 = dict(d)            # what the caller wrote; `d` itself is handed to construct() twice
     if dfl == "lower":
         got = va.construct(d)
     elif dfl == "nan":
@@ -40,6 +41,19 @@ def do_case(ctx, inp):
     else:
         got = va.construct(d, default_value=lambda v: dfl["const"])
     cons = nan_list(got)
+    # the caller's dictionary used once more, for a vector of another kind (another default): the values it did not give
+    # are filled with THAT call's default
+    if dfl == "nan":
+        again, want2 = nan_list(va.construct(d, default_value=lambda v: v.bounds.upper)), (lambda lo, hi: hi)
+    else:
+        again, want2 = nan_list(va.construct(d, dtype=float)), (lambda lo, hi: None)
+    d = d0
+    for j, (i, (lo, hi)) in enumerate(zip(ids, bnds)):
+        w2 = d[i] if i in d else want2(lo, hi)
+        if again[j] != w2 and not (again[j] is not None and w2 is not None and float(again[j]) == float(w2)):
+            ctx.fail("construct-entry-wrong", {"column": j, "id": repr(i), "got": again[j], "want": w2,
+                                               "history": "second construct() call with the same dictionary object and another default"})
+            break
     flb = [int(x) for x in pnd.boolean_ndarray.from_list(lst, ids).tolist()] if lst else None
     fli = [int(x) for x in pnd.integer_ndarray.from_list(lst, ids).tolist()] if lst else None
     tl = [v.id for v in pnd.boolean_ndarray(np.array(vec, dtype=np.int64), variables=vs).to_list()]
